@@ -186,6 +186,10 @@ pub trait ElementReference<'a, Traits: ?Sized + Trait = dyn None, M: MemBuilder 
 pub struct ElementRef<'a, Traits: ?Sized + Trait = dyn None, M: MemBuilder = mem::Default>(
     pub(crate) ManuallyDrop<Element<'a, Traits, M>>
 );
+// Shared (and clonable) reference: like `&T`, it is `Send` only if the vector is `Sync`.
+unsafe impl<'a, Traits: ?Sized + Trait, M: MemBuilder> Send for ElementRef<'a, Traits, M>
+    where AnyVec<Traits, M>: Sync
+{}
 impl<'a, Traits: ?Sized + Trait, M: MemBuilder> ElementReference<'a, Traits, M> for ElementRef<'a, Traits, M>{}
 impl<'a, Traits: ?Sized + Trait, M: MemBuilder> Deref for ElementRef<'a, Traits, M>{
     type Target = Element<'a, Traits, M>;
